@@ -18,9 +18,7 @@ global size_of usize == 8;
 #[derive(Debug)]
 struct EndOfBuffer;
 
-// abstract wire encodings of the primitives (their concrete RFC definitions: Kani)
-uninterp spec fn enc_int(n: int, flags: u8, value: usize) -> Seq<u8>;
-uninterp spec fn enc_str(n: int, flags: u8, s: Seq<char>) -> Seq<u8>;
+//@ include _qpack_spec.inc
 
 // assumed interface: bytes.rs `impl BytesWriter for Vec<u8>` (Kani: p_vec_put_varint, p_vec_put_bytes)
 trait BytesWriter {
@@ -39,12 +37,6 @@ impl BytesWriter for Vec<u8> {
         unimplemented!()
     }
 }
-
-//@ extract wtransport-proto/src/qpack.rs >> enum LookupIndexFound
-//@ end
-
-// abstract result of the static-table lookup for a (name, value) pair
-uninterp spec fn lookup(k: Seq<char>, v: Seq<char>) -> Option<LookupIndexFound>;
 
 struct StaticTable;
 
@@ -76,21 +68,6 @@ impl Encoder {
         unimplemented!()
     }
 
-    // RFC 9204 §4.5.2 / §4.5.4 / §4.5.6: the line for one field
-    spec fn field_line(k: Seq<char>, v: Seq<char>) -> Seq<u8> {
-        match lookup(k, v) {
-            Some(LookupIndexFound::KeyValue(index)) => enc_int(6, 0b11, index),
-            Some(LookupIndexFound::KeyOnly(index)) => enc_int(4, 0b0101, index) + enc_str(7, 0, v),
-            None => enc_str(3, 0b10, k) + enc_str(7, 0, v),
-        }
-    }
-
-    spec fn field_lines(h: Seq<(&str, &str)>, upto: int) -> Seq<u8>
-        decreases upto,
-    {
-        if upto <= 0 { Seq::<u8>::empty() } else { Self::field_lines(h, upto - 1) + Self::field_line(h[upto - 1].0@, h[upto - 1].1@) }
-    }
-
 //@ extract wtransport-proto/src/qpack.rs >> impl Encoder >> fn encode
 //@ subst `fn encode<H, K, V>(headers: H) -> Box<[u8]>
 //@ |    where
@@ -98,12 +75,12 @@ impl Encoder {
 //@ |        K: AsRef<str>,
 //@ |        V: AsRef<str>,` => `fn encode(headers: &Vec<(&str, &str)>) -> Vec<u8>`
 //@ subst `for (key, value) in headers.into_iter() {` => `for i in 0..headers.len()
-//@ |            invariant buffer@ == enc_int(8, 0, 0) + enc_int(7, 0, 0) + Self::field_lines(headers@, i as int),
+//@ |            invariant buffer@ == enc_int(8, 0, 0) + enc_int(7, 0, 0) + QpackSpec::field_lines(headers@, i as int),
 //@ |        { let (key, value) = headers[i];`
 //@ subst `key.as_ref(), value.as_ref()` => `key, value`
 //@ resub `::<(\d+), _(?:, _)?>` => `::<\1>`
 //@ subst `buffer.into_boxed_slice()` => `buffer`
-//@ ensures r@ == enc_int(8, 0, 0) + enc_int(7, 0, 0) + Self::field_lines(headers@, headers@.len() as int)
+//@ ensures r@ == enc_int(8, 0, 0) + enc_int(7, 0, 0) + QpackSpec::field_lines(headers@, headers@.len() as int)
 //@ end
 }
 
